@@ -12,7 +12,7 @@ var (
 	profC01 = eng.ProfileFull("C01", nil)
 	profC02 = eng.ProfileFull("C02", map[string]int{"createBatch": 8, "mint": 10, "bridgeReceive": 6, "seal": 5, "addBridgeChain": 2})
 	profC04 = eng.ProfileFull("C04", map[string]int{"retire": 8, "send": 10, "take": 9, "buy": 10})
-	profC06 = eng.ProfileFull("C06", map[string]int{"sell": 14, "updSell": 12, "cancelSell": 6, "buy": 14, "block": 12, "removeDenom": 2, "addDenom": 2})
+	profC06 = eng.ProfileFull("C06", map[string]int{"sell": 14, "updSell": 12, "cancelSell": 6, "buy": 14, "block": 12, "removeDenom": 2, "addDenom": 2, "bulkOrders": 1})
 	profC03 = eng.ProfileFull("C03", map[string]int{"sendFromPool": 3, "burnRegen": 2, "buy": 12, "sell": 10, "bankSend": 5})
 	profC05 = withPrelude(eng.ProfileFull("C05", map[string]int{"put": 16, "take": 14, "bankSend": 8, "basketCreate": 5, "createBatch": 8, "bulkBasket": 1}),
 		"createClass", "createProject", "createBatch", "createBatch", "basketCreate", "basketCreate", "put", "put", "put", "bankSend", "block")
@@ -30,7 +30,7 @@ var (
 		"seal": 4, "mint": 6, "updCurator": 5, "setAllowlist": 3, "addCreator": 3, "removeCreator": 3, "createClass": 6, "createProject": 5, "createBatch": 7,
 		"updSell": 6, "cancelSell": 5, "bridgeReceive": 5, "defineResolver": 4, "registerResolver": 6, "anchor": 1, "unimplemented": 2,
 		"addCreditType": 2, "updClassFee": 2, "addBridgeChain": 2, "removeBridgeChain": 2, "updBasketFee": 2, "updDateCriteria": 3, "addDenom": 2, "removeDenom": 2, "setFeeParams": 2, "sendFromPool": 3})
-	profC12 = eng.ProfileFull("C12", map[string]int{"sell": 16, "updSell": 10, "buy": 10, "block": 18, "cancelSell": 3})
+	profC12 = eng.ProfileFull("C12", map[string]int{"sell": 16, "updSell": 10, "buy": 10, "block": 18, "cancelSell": 3, "bulkOrders": 1})
 )
 
 func withPrelude(p *eng.Profile, kinds ...string) *eng.Profile {
@@ -78,7 +78,7 @@ var profC16 = func() *eng.Profile {
 func monsC16() []eng.Monitor { return []eng.Monitor{&mon.C16{}} }
 func c17() (*eng.Profile, func() []eng.Monitor) {
 	p := eng.ProfileFull("C17", map[string]int{"query": 30, "get": 8, "anchor": 4, "attest": 5, "defineResolver": 4, "registerResolver": 5,
-		"createClass": 5, "createProject": 6, "createBatch": 8, "sell": 10, "updClassAdmin": 2, "updProjectAdmin": 2})
+		"createClass": 5, "createProject": 6, "createBatch": 8, "sell": 10, "updClassAdmin": 2, "updProjectAdmin": 2, "bulkOrders": 1, "bulkBasket": 1})
 	p.PrefixIDs = true
 	var cur *mon.C17
 	p.Custom = map[string]func(w *eng.World){"query": func(w *eng.World) { cur.QueryStep(w) }, "get": func(w *eng.World) { cur.SingleStep(w) }}
